@@ -186,6 +186,8 @@ package builder
 //@   props C12
 //@   ensures parent-closed-on-error: r2 != nil && parentDirectory != nil ==> dirclosed(parentDirectory) == 1
 //@   ensures parent-kept-on-success: r2 == nil ==> dirclosed(parentDirectory) == 0
+//@   at call Mkdir#1 ghostset execsteps[5] = ite(r0 != nil, 1, 0)
+//@   ensures an-action-never-starts-in-a-directory-that-could-not-be-created-for-it: execsteps(5) == 1 ==> r2 != nil
 //@ func (*sharedBuildDirectory).Close
 //@   props C12
 //@   requires d.BuildDirectory != d.parentDirectory
